@@ -248,6 +248,17 @@ def cleanup_stale():
                 pass
 
 
+def _stamp(path: str) -> None:
+    """File timestamps are part of the simulated storage: they read the simulated clock (coarse, like a file system with
+    one-second or two-second timestamps), never the real one."""
+    from . import seams
+    t = float(int(seams.CLOCK.now))
+    try:
+        os.utime(path, (t, t))
+    except OSError:
+        pass
+
+
 class SimDisk:
     """Durable state of the world: name -> bytes."""
 
@@ -265,6 +276,7 @@ class SimDisk:
         p = os.path.join(scratch_dir(), name.replace("/", "_") + suffix)
         with open(p, "wb") as f:
             f.write(self.files[name])
+        _stamp(p)
         return p
 
     def materialize_dir(self, name: str) -> str:
@@ -282,4 +294,5 @@ class SimDisk:
                 os.makedirs(os.path.dirname(p), exist_ok=True)
                 with open(p, "wb") as f:
                     f.write(z.read(n))
+                _stamp(p)
         return d
